@@ -6,7 +6,7 @@ CONSTANTS
   YVals <- YB
   WVals <- W1
   LambSet <- LambB
-  G0Vals <- GA
+  G0Vals <- G2
 INVARIANT Optimal
 INVARIANT Emit
 CHECK_DEADLOCK FALSE
